@@ -487,7 +487,7 @@ def stray_jump_family(quick, rng, all_pres_depth=2):
     if quick:
         shapes = [s for s in shapes if len(s) <= 3] + rng.sample([s for s in shapes if len(s) == 4], 40)
     for sh in shapes:
-        pres = ["", "functie h_() { 1 }; h_();", "stel z_ = 0; zolang z_ < 1 { z_ += 1 };", "zolang nee { };", "stel g_ = functie(q) { q }; g_(1);"]
+        pres = ["", "functie h_() { 1 }; h_();", "stel z_ = 0; zolang z_ < 1 { z_ += 1 };", "zolang nee { };", "stel g_ = functie(q) { q }; g_(1);", "functie(q) { q }(1);"]
         for jump in ("stop", "volgende"):
             # what stands before the jump at its own level: nothing, a finished loop, a nested function (statement or
             # expression) - all of them for the short shapes, one in rotation for the long ones
